@@ -1,10 +1,11 @@
 #!/bin/bash
-# C06: truncated / mistyped input against the strict reference decoder.
-# No in-package access is needed.  VERIF_EXTRA_OVERLAY=<overlay.json> builds
-# against seeded mutants of TarsGo files (go build -overlay); /repo is never
-# modified.
+# C06: truncated / mistyped input against the strict reference decoder.  The bootstrap
+# binary builds the working-tree tars2go, the corpus and the driver on every run
+# (scratch: $WORK/c06).
+#   VERIF_TARS2GO_OVERLAY=<overlay.json>  seeded mutants of generator / parser files
+#   VERIF_EXTRA_OVERLAY=<overlay.json>    seeded mutants of codec.go / res / tup files
+# /repo is never modified.
 . "$(dirname "$0")/../../lib.sh"
-ov=()
-[ -n "$VERIF_EXTRA_OVERLAY" ] && ov=(-overlay "$VERIF_EXTRA_OVERLAY")
-(cd "$VERIF_ROOT" && go build "${ov[@]}" -o "$WORK/bin/c06" ./checks/c06) || exit 2
-exec "$WORK/bin/c06" "$@"
+mkdir -p "$WORK/c06/bin"
+(cd "$VERIF_ROOT" && go build -o "$WORK/c06/bin/c06boot" ./checks/c06) || exit 2
+exec "$WORK/c06/bin/c06boot" "$@"
